@@ -744,6 +744,15 @@ def builtin(I, name, a, kwargs, node, _no_override=False):
             return TupS([lv[0].derive("divmod[0]", "number"), lv[0].derive("divmod[1]", "number")])
     if name in ("sorted", "reversed"):
         v = a[0]
+        if isinstance(v, Obj) and "__sorted__" in v.fields:
+            return I.call(v.fields["__sorted__"], [Const(name)], kwargs, node)
+        if not isinstance(v, (SetS, DictS, ListLit, TupS, ListOf, Const, Choice, Top, Leaf)):
+            try:
+                v = ListLit(list(I.iterate(v, node)))  # dict views, iterators ...
+            except ShapeError:
+                pass
+        if isinstance(v, Const) and isinstance(v.v, (list, tuple, range, str)):
+            v = ListLit([Const(x) for x in v.v])
         if isinstance(v, SetS):
             if name == "reversed":
                 raise _Raise("TypeError: 'set' object is not reversible", ["TypeError", "Exception", "BaseException", "object"])
@@ -761,6 +770,14 @@ def builtin(I, name, a, kwargs, node, _no_override=False):
             keyf = kwargs.get("key")
             rev = kwargs.get("reverse", Const(False))
             keys = [to_py(I.call(keyf, [x], {}, node)) if keyf is not None else to_py(x) for x in v.elts]
+            if keyf is None and any(k is _NOPY for k in keys) and all(isinstance(x, (TupS, ListLit)) and x.elts and isinstance(x.elts[0], Const) for x in v.elts):
+                # tuples compare by their first members first: when those are constants and pairwise different the rest is never looked at
+                firsts = [x.elts[0].v for x in v.elts]
+                try:
+                    if len(set(firsts)) == len(firsts):
+                        keys = firsts
+                except TypeError:
+                    pass
             if all(k is not _NOPY for k in keys) and isinstance(rev, Const):
                 try:
                     order = sorted(range(len(keys)), key=lambda i: keys[i], reverse=bool(rev.v))
